@@ -843,6 +843,11 @@ impl StagingStore for FsOcflStore {
                     }
                 }
             }
+
+            // An earlier attempt that failed part way through may have left empty directories behind
+            if content_dir.exists() {
+                util::clean_dirs_down(&content_dir)?;
+            }
         }
 
         Ok(())
